@@ -39,6 +39,20 @@ def free_port():
     return p
 
 
+def pids_matching(text):
+    """pids of the processes whose command line contains `text`"""
+    out = []
+    for d in os.listdir("/proc"):
+        if d.isdigit() and int(d) != os.getpid():
+            try:
+                with open("/proc/%s/cmdline" % d, "rb") as f:
+                    if text.encode() in f.read():
+                        out.append(int(d))
+            except OSError:
+                pass
+    return out
+
+
 def children_of(pid):
     """direct children (pids) of a process, from /proc"""
     out = []
